@@ -66,6 +66,9 @@ def annotations():
         'Generator[int,None,None]': lambda: Generator[int, None, None], 'Iterator[int]': lambda: Iterator[int], 'Awaitable[int]': lambda: Awaitable[int],
         'Callable[[int],str]': lambda: Callable[[int], str], 'Callable[...,Any]': lambda: Callable[..., Any], 'abc.Callable[[int],str]': lambda: collections.abc.Callable[[int], str],
         'NewType(NewType)': lambda: NewType('B', NewType('A', int)), 'type(None)': lambda: type(None), 'dataclass': lambda: dataclasses.dataclass,
+        'ParamSpec.args': lambda: _P.args, 'ParamSpec.kwargs': lambda: _P.kwargs, 'Annotated[int,{}]': lambda: Annotated[int, {}],
+        'Annotated[int,[]]': lambda: Annotated[int, [1]], 'Literal[[1,2]]': lambda: Literal[[1, 2]], 'Literal[{}]': lambda: Literal[{}],
+        'List[Literal[[1]]]': lambda: List[Literal[[1]]], 'Optional[Annotated[int,[]]]': lambda: Optional[Annotated[int, []]],
         'functools.partial': lambda: functools.partial(_fn, 1), 'BinaryIO': lambda: BinaryIO, 'TextIO': lambda: TextIO, 'IO[str]': lambda: IO[str],
     }
     for k, v in extra.items():
